@@ -62,6 +62,7 @@ var (
 var targets = map[string]map[string]bool{
 	"github.com/btcsuite/btcwallet/wallet":       {},
 	"github.com/btcsuite/btcwallet/waddrmgr":     {},
+	"github.com/btcsuite/btcwallet/wtxmgr":       {},
 	"github.com/btcsuite/btcwallet/walletdb/bdb": {},
 	"github.com/btcsuite/btcwallet/chain":        {"queue.go": true},
 	"go.etcd.io/bbolt":                           {},
@@ -69,7 +70,16 @@ var targets = map[string]map[string]bool{
 
 // only these files of package chain are touched at all
 var onlyFiles = map[string]map[string]bool{
-	"github.com/btcsuite/btcwallet/chain": {"queue.go": true},
+	"github.com/btcsuite/btcwallet/chain": {"queue.go": true, "block_filterer.go": true},
+}
+
+// packages in which `for ... range <map>` is rewritten to iterate in an order
+// decided by the run's seed (simrt.MapKeys) instead of by the Go runtime
+var mapOrder = map[string]bool{
+	"github.com/btcsuite/btcwallet/wallet":   true,
+	"github.com/btcsuite/btcwallet/waddrmgr": true,
+	"github.com/btcsuite/btcwallet/wtxmgr":   true,
+	"github.com/btcsuite/btcwallet/chain":    true,
 }
 
 func die(format string, a ...any) {
@@ -378,6 +388,14 @@ func (in *inst) run() ([]byte, bool) {
 				in.stats[in.pkg.Name+".recv"]++
 			}
 		case *ast.RangeStmt:
+			if mapOrder[in.pkg.PkgPath] {
+				if r := in.mapRange(n, c.Parent()); r != nil {
+					c.Replace(r)
+					in.changed = true
+					in.stats[in.pkg.Name+".maprange"]++
+					return true
+				}
+			}
 			if in.mediate {
 				if t := in.pkg.TypesInfo.TypeOf(n.X); t != nil {
 					if _, isChan := t.Underlying().(*types.Chan); isChan {
@@ -492,6 +510,69 @@ func (in *inst) goStmt(g *ast.GoStmt) ast.Stmt {
 		return stmts[0]
 	}
 	return &ast.BlockStmt{List: stmts}
+}
+
+// mapRange rewrites `for k, v := range m` over a map into an iteration over
+// simrt.MapKeys(site, m): the keys in an order that is a function of the run's
+// seed. Entries removed during the iteration are skipped, as Go does; entries
+// added during the iteration are not visited, which Go permits.
+func (in *inst) mapRange(r *ast.RangeStmt, parent ast.Node) ast.Stmt {
+	t := in.pkg.TypesInfo.TypeOf(r.X)
+	if t == nil {
+		return nil
+	}
+	if _, isMap := t.Underlying().(*types.Map); !isMap {
+		return nil
+	}
+	in.n++
+	k := in.n
+	kv := ast.NewIdent(fmt.Sprintf("_vsk%d", k))
+	var pre []ast.Stmt
+	var m ast.Expr = r.X
+	switch ast.Unparen(r.X).(type) {
+	case *ast.Ident, *ast.SelectorExpr:
+	default:
+		if _, labeled := parent.(*ast.LabeledStmt); labeled {
+			die("%s: labeled range over a non-trivial map expression is not supported", in.fset.Position(r.Pos()))
+		}
+		mv := ast.NewIdent(fmt.Sprintf("_vsm%d", k))
+		pre = append(pre, &ast.AssignStmt{Lhs: []ast.Expr{mv}, Tok: token.DEFINE, Rhs: []ast.Expr{r.X}})
+		m = ast.NewIdent(mv.Name)
+	}
+	isBlank := func(e ast.Expr) bool {
+		if e == nil {
+			return true
+		}
+		id, ok := e.(*ast.Ident)
+		return ok && id.Name == "_"
+	}
+	idx := func() ast.Expr { return &ast.IndexExpr{X: m, Index: ast.NewIdent(kv.Name)} }
+	var body []ast.Stmt
+	vv := ast.NewIdent(fmt.Sprintf("_vsv%d", k))
+	okv := ast.NewIdent(fmt.Sprintf("_vsok%d", k))
+	// presence check (entry may have been deleted during the iteration)
+	body = append(body, &ast.AssignStmt{Lhs: []ast.Expr{vv, okv}, Tok: token.DEFINE, Rhs: []ast.Expr{idx()}})
+	body = append(body, &ast.IfStmt{Cond: &ast.UnaryExpr{Op: token.NOT, X: ast.NewIdent(okv.Name)},
+		Body: &ast.BlockStmt{List: []ast.Stmt{&ast.BranchStmt{Tok: token.CONTINUE}}}})
+	body = append(body, &ast.AssignStmt{Lhs: []ast.Expr{ast.NewIdent("_")}, Tok: token.ASSIGN, Rhs: []ast.Expr{ast.NewIdent(vv.Name)}})
+	if !isBlank(r.Key) {
+		body = append(body, &ast.AssignStmt{Lhs: []ast.Expr{r.Key}, Tok: r.Tok, Rhs: []ast.Expr{ast.NewIdent(kv.Name)}})
+	}
+	if !isBlank(r.Value) {
+		body = append(body, &ast.AssignStmt{Lhs: []ast.Expr{r.Value}, Tok: r.Tok, Rhs: []ast.Expr{ast.NewIdent(vv.Name)}})
+	}
+	if r.Tok == token.DEFINE {
+		// a variable may be declared and not used by the body only if Go
+		// accepted the original loop, in which it was used; nothing to add
+	}
+	// the original body keeps its own scope (it may redeclare the loop variables)
+	body = append(body, r.Body)
+	loop := &ast.RangeStmt{Key: ast.NewIdent("_"), Value: kv, Tok: token.DEFINE,
+		X: call("MapKeys", lit(in.site("maprange", r.Pos())), m), Body: &ast.BlockStmt{List: body}}
+	if len(pre) == 0 {
+		return loop
+	}
+	return &ast.BlockStmt{List: append(pre, loop)}
 }
 
 // selectStmt builds the switch over simrt.Select. Channel and value
